@@ -305,6 +305,26 @@ def closed_block_citation(r):
             Shape((1,), 'implies_intr', B, [(0, 0)])]
 
 
+def prefix_mismatch_citation(r):
+    """A block whose nested step carries an identifier of the right length and last component but a
+    foreign prefix (that of a later line), and cites a line that comes later in the text; that line is
+    justified from the block: a circular justification unless identifiers are compared in full."""
+    m = r.choice([0, 0, 1, 2])
+    pre = [Shape((k,), 'theorem', 'trueI') for k in range(m)]
+    X = r.choice(THMS)
+    fake = m + r.choice([2, 3, 5])
+    nested = [Shape((fake, 0), 'substitution', Inst(), [(m + 1,)])]
+    if r.random() < 0.4:
+        # one level deeper
+        nested = [Shape((m, 0) if r.random() < 0.5 else (fake, 0), 'subproof',
+                        sub=[Shape((fake, 0, 0), 'substitution', Inst(), [(m + 1,)])])]
+    if r.random() < 0.3:
+        nested = [Shape((m, 0), 'theorem', 'trueI'), Shape((fake, 1), 'substitution', Inst(), [(m + 1,)])]
+    blk = Shape((m,), 'subproof', sub=nested)
+    last = Shape((m + 1,), 'substitution', Inst(), [(m,)], X)
+    return pre + [blk, last]
+
+
 def exhaustive_single():
     """All single-item proofs over a reduced alphabet."""
     res = []
@@ -360,6 +380,8 @@ def run_check(tier, seed):
             cases.append((mutate_proof(r, sh), ng, 'mutated'))
     for _ in range(80 if tier == 'quick' else 800):
         cases.append((closed_block_citation(r), r.random() < 0.5, 'closed-block-citation'))
+    for _ in range(60 if tier == 'quick' else 600):
+        cases.append((prefix_mismatch_citation(r), r.random() < 0.6, 'nested-id-prefix'))
     # corpus: the design-phase defects
     corpus = [
         ([Shape((1,), 'substitution', Inst(), [(0,)], Thm(FALSE))], True, 'corpus:self-citation-by-position', 'C02:id-position'),
